@@ -55,7 +55,7 @@ func (vt *v2T) scenC01() {
 		thr   float64
 		ndocs int
 	}
-	cfgs := []cfg{{0.8, len(docs)}, {0.7, 40}, {0.75, 30}, {0.9, 40}, {1.0, 40}}
+	cfgs := []cfg{{0.8, len(docs)}, {0.7, 40}, {0.75, 30}, {0.9, 40}, {1.0, 40}, {0.85, 12}, {0.94, 12}, {0.895, 12}}
 	if vt.thorough() {
 		cfgs = []cfg{{0.8, len(docs)}, {0.7, len(docs)}, {0.75, 150}, {0.9, len(docs)}, {1.0, len(docs)}, {0.85, 100}, {0.95, 100}}
 	}
@@ -72,6 +72,23 @@ func (vt *v2T) scenC01() {
 			d := v2Doc{Key: fmt.Sprintf("License/User-%d-%d/license.txt", ci, n), Cat: "License", Name: fmt.Sprintf("User-%d-%d", ci, n), Variant: "license.txt", Data: []byte(strings.Join(ws, " ") + "\n")}
 			vt.add(c, d)
 			extra = append(extra, d)
+		}
+		// a user-added alias of an embedded document and two user documents with identical words: every name
+		// a planted copy belongs to must be reported (the code keeps both sides of an exact tie)
+		{
+			src := docs[vt.rng.Intn(len(docs))]
+			for len(c.tokens(src.Data).Tokens) < 2*q {
+				src = docs[vt.rng.Intn(len(docs))]
+			}
+			al := v2Doc{Key: fmt.Sprintf("%s/Alias-%d/%s", src.Cat, ci, src.Variant), Cat: src.Cat, Name: fmt.Sprintf("Alias-%d", ci), Variant: src.Variant, Data: src.Data}
+			vt.add(c, al)
+			extra = append(extra, al)
+			tw := extra[2]
+			twin := v2Doc{Key: fmt.Sprintf("License/Twin-%d/license.txt", ci), Cat: "License", Name: fmt.Sprintf("Twin-%d", ci), Variant: "license.txt", Data: []byte(strings.ToUpper(string(tw.Data)))}
+			vt.add(c, twin)
+			extra = append(extra, twin)
+			vt.aliasOf = map[string]string{al.Key: src.Key, src.Key: al.Key, twin.Key: tw.Key, tw.Key: twin.Key}
+			vt.byKey = map[string]v2Doc{al.Key: al, src.Key: src, twin.Key: twin, tw.Key: tw}
 		}
 		all := append(append([]v2Doc(nil), docs...), extra...)
 		idx := vt.sample(len(docs), cf.ndocs)
@@ -119,6 +136,9 @@ func (vt *v2T) plantCase(c *v2C, planted []v2Doc, q int) {
 				return false // shorter than the minimum run length: outside the statement's domain
 			}
 			pls = append(pls, pl{*d, tokOff, tokOff + n - 1, lineOff + doc.Tokens[0].Line, lineOff + doc.Tokens[n-1].Line})
+			if ak, ok := vt.aliasOf[d.Key]; ok {
+				pls = append(pls, pl{vt.byKey[ak], tokOff, tokOff + n - 1, lineOff + doc.Tokens[0].Line, lineOff + doc.Tokens[n-1].Line})
+			}
 		}
 		tokOff += n
 		lineOff += bytes.Count(b, []byte("\n"))
@@ -245,6 +265,27 @@ func (vt *v2T) editWords(c *v2C, data []byte, rate float64) []byte {
 	return []byte(strings.Join(lines, "\n"))
 }
 
+// deleteWords removes words at the given rate; onceOnly restricts the deletions to words that occur once in the
+// text, which lowers the number of distinct words as fast as possible.
+func (vt *v2T) deleteWords(data []byte, rate float64, onceOnly bool) []byte {
+	count := map[string]int{}
+	for _, w := range strings.Fields(strings.ToLower(string(data))) {
+		count[w]++
+	}
+	lines := strings.Split(string(data), "\n")
+	for li, ln := range lines {
+		var out []string
+		for _, w := range strings.Fields(ln) {
+			if vt.rng.Float64() < rate && (!onceOnly || count[strings.ToLower(w)] == 1) {
+				continue
+			}
+			out = append(out, w)
+		}
+		lines[li] = strings.Join(out, " ")
+	}
+	return []byte(strings.Join(lines, "\n"))
+}
+
 func sortStrings(a []string) {
 	for i := 1; i < len(a); i++ {
 		for j := i; j > 0 && a[j] < a[j-1]; j-- {
@@ -281,6 +322,32 @@ func (vt *v2T) scenC07() {
 	for _, k := range names {
 		xs = append(xs, scen[k])
 		labels = append(labels, "scenario/"+k)
+	}
+	// X made of corpus words only (deletions, no substitutions), down to the fewest distinct words that still match
+	for _, i := range vt.sample(len(docs), n/2) {
+		for _, r := range []float64{0.08, 0.17, 0.2} {
+			xs = append(xs, vt.deleteWords(docs[i].Data, r, false))
+			labels = append(labels, fmt.Sprintf("%s@del%.2f", docs[i].Key, r))
+		}
+		xs = append(xs, vt.deleteWords(docs[i].Data, 0.19, true))
+		labels = append(labels, docs[i].Key+"@del-once-only")
+	}
+	// X whose first k words are missing and that is fragmented into short runs (every k-th word replaced)
+	for _, i := range vt.sample(len(docs), n/3) {
+		ws := strings.Fields(string(docs[i].Data))
+		if len(ws) < 60 {
+			continue
+		}
+		k := 4 + vt.rng.Intn(int(float64(len(ws))*0.1))
+		if k > 14 {
+			k = 14
+		}
+		ws = ws[k:]
+		for j := k; j < len(ws); j += k + 1 {
+			ws[j] = vt.oovWord(c)
+		}
+		xs = append(xs, []byte(strings.Join(ws, " ")))
+		labels = append(labels, fmt.Sprintf("%s@head-%d-fragmented", docs[i].Key, k))
 	}
 	for k := 0; k < n/6; k++ {
 		a, b := docs[vt.rng.Intn(len(docs))], docs[vt.rng.Intn(len(docs))]
